@@ -77,16 +77,11 @@ def dump_loop(L, loop, numbers=False):
 
 
 def with_numbers(L, v, pv):
-    """augment a model value with the doubles the library derives from it (on a clone, because the accessors coerce)"""
+    """augment a model value with the doubles the library derives from it.  For a value of number kind the accessors
+    are pure; they are applied to the value itself, not to a clone, so that a defect of cloning cannot cancel out"""
     if pv[0] == 'numb':
-        rc, c = L.value_clone(v)
-        if rc != CIF_OK:
-            raise DumpError('cif_value_clone', rc)
-        try:
-            r1, d = L.value_number(c)
-            r2, su = L.value_su(c)
-        finally:
-            L.value_free(c)
+        r1, d = L.value_number(v)
+        r2, su = L.value_su(v)
         return pv + ((r1, d.hex() if r1 == CIF_OK else None, r2, su.hex() if r2 == CIF_OK else None),)
     if pv[0] == 'list':
         out = []
